@@ -277,7 +277,10 @@ Emit == PrintT(<<"CASE", ToJson(case)>>)
 \* rotation sets for the cfg files
 QuickRots == SmallRots
 ThoroughRots == SmallRots \cup GenericRots(2)
-AllDataClasses == {"uniform", "cluster", "girdle", "axes", "antipodal", "repeated"}
+\* "equator": directions exactly in the plane z = 0 (poles of grains rotated about the vertical of the figure only):
+\* there the two hemispheres meet, and a datum and its antipode are both "upper" - the antipode is formed with plain
+\* +0.0 components, the way a user would write it
+AllDataClasses == {"uniform", "cluster", "girdle", "axes", "antipodal", "repeated", "equator"}
 QuickWeights == {<<1, 1>>, <<3, 1>>}
 ThoroughWeights == {<<1, 1>>, <<1, 2>>, <<3, 1>>}
 
